@@ -82,7 +82,8 @@ fn run(case: &mut Case) -> Result<Outcome, String> {
     let kind = ks[case.src.usize_below(ks.len())];
     // quick tier: the B^T B + mu I systems (whose CG runs are the long ones) at twice the order drawn, 2..=60, so that runs
     // of 64 and more iterations occur in every tier
-    let n = if case.tier == Tier::Quick && KINDS[kind] == "spd-btb" { 2 * n } else { n };
+    // ... and for every other kind the upper third of the quick range, 21..=30, stands for the orders 51..=60
+    let n = if case.tier == Tier::Quick && KINDS[kind] == "spd-btb" { 2 * n } else if case.tier == Tier::Quick && n > 20 { n + 30 } else { n };
     // half of the diagonally dominant SPD systems: narrow band (1 or 2 off-diagonals) with a tight dominance margin
     // (1e-3 .. 1e-1) at an order from the upper half of the range - condition number of a few hundred, on which CG needs
     // more iterations than the order (runs of 64 .. 150 iterations)
